@@ -7,7 +7,7 @@ import warnings
 import core
 from core import Driver, rat
 from pool import err_kind, run_pool
-from props.lp_common import (RecCtx, enc_mat, enc_num, enc_point, enc_vec, gen_lp, lp_candidates, shrink,
+from props.lp_common import (RecCtx, enc_mat, enc_num, enc_point, enc_vec, gen_lp, lp_candidates, lp_strip, shrink,
                               write_min)
 
 AREAS = ["Lp"]
@@ -23,7 +23,8 @@ ASSUMPTIONS = [
     "the eps-run and the exact run of every explored input",
 ]
 RULE = ("structured LPs (random, bounded, degenerate vertex, phase-1/equality pairs, infeasible, unbounded; "
-        "duplicated/parallel/zero rows, zero columns; integer and dyadic data; both senses; m,n <= 6 quick / "
+        "strips between planted opposite parallel rows with 2-3 variables (unbounded along / bounded / infeasible / "
+        "equality pair, scaled); duplicated/parallel/zero rows, zero columns; integer and dyadic data; both senses; m,n <= 6 quick / "
         "<= 10 thorough; a share with tiny max_iter); non-trivial = phase 1 ran or >= 2 pivots in the mirror; "
         "distinct by canonical (c, A, b, minimize, options)")
 
@@ -69,6 +70,18 @@ def gen_case(rng, big: bool):
     return {"family": fam, "c": c, "A": A, "b": b, "minimize": rng.random() < 0.5, "opts": opts, "ipm": ipm}
 
 
+def gen_strip_case(rng):
+    """cheap 2-3 variable strips (planted opposite parallel rows): where interior-point iterates diverge along the
+    strip; the objective is maximised along the strip half of the time in each sense"""
+    c, A, b = lp_strip(rng)
+    minimize = rng.random() < 0.5
+    if rng.random() < 0.5:          # make "along the strip" the improving direction for this sense
+        c = [-v for v in c] if minimize else c
+    if rng.random() < 0.3:
+        c, A, b = [float(v) for v in c], [[float(v) for v in r_] for r_ in A], [float(v) for v in b]
+    return {"family": "strip", "c": c, "A": A, "b": b, "minimize": minimize, "opts": {}, "ipm": {}}
+
+
 def edge_cases():
     mk = lambda c, A, b, mn=True, **o: {"family": "edge", "c": c, "A": A, "b": b, "minimize": mn, "opts": o, "ipm": {}}
     # the DESIGN witness: solve_lp_interior raises OverflowError
@@ -83,6 +96,8 @@ def edge_cases():
     yield mk([-3, -2], [[1, 1], [1, 0], [0, 1]], [4, 2, 3])
     yield mk([1, 2], [[-1, 0], [0, -1], [1, 1]], [-1, -1, 1])  # infeasible after phase 1
     yield mk([-1, 0], [[1, -1], [-1, 1]], [1, -1])  # unbounded with phase 1
+    yield mk([2, 2], [[2, -2], [-2, 2]], [1, 0], False)         # strip 0 <= 2x-2y <= 1, pushed along
+    yield mk([0, 1], [[1, -1], [-1, 1]], [3, -1], False)        # strip 1 <= x-y <= 3, max y
     # Beale's cycling example (degenerate, needs Bland)
     yield mk([-0.75, 150, -0.02, 6], [[0.25, -60, -0.04, 9], [0.5, -90, -0.02, 3], [0, 0, 1, 0]], [0, 0, 1])
 
@@ -309,6 +324,8 @@ def run(ctx, budget):
     cases = list(edge_cases()) + [c["case"] for c in core.load_corpus("C03")]
     n = (1400 if budget == 1 else 2000 * budget)   # quick tier trimmed: must stay <= 60 s on a loaded box
     cases += [gen_case(ctx.rng, big=(ctx.tier == "thorough" and i % 3 == 0)) for i in range(n)]
+    # strips: a 1-2 % class of them makes a diverging interior-point run overflow; a few thousand cheap ones per run
+    cases += [gen_strip_case(ctx.rng) for _ in range(3000 if budget == 1 else 2000 * budget)]
     failed = run_cases(ctx, cases)
     if failed and not getattr(ctx, "seed_shift", 0):
         shrink_failures(ctx, failed)
